@@ -6,7 +6,7 @@ from props._hist import History, Fail, result_fail, sig_from_rec, std_replay
 PROP = "C04"
 LEVEL = "other"
 SELFTEST_PARTS = ("num",)
-WALL_BUDGET = {"quick": 900, "thorough": 5400}
+WALL_BUDGET = {"quick": 1200, "thorough": 9000}
 # (kind, src, dst, objects touched - closed under ancestor/descendant: anything under /d touches d)
 OPS = [
     ("write", "/a", None, {"a"}), ("delete", "/a", None, {"a"}), ("rename", "/a", "/x", {"a", "x"}),
@@ -98,6 +98,7 @@ def _factory(params, env=None):
             seq.insert(pos, (1, j))
         ref = dict(lab.tree(0))
         h = History(lab, e)
+        h.mode = params.get("slotmode")
         try:
             for k, (side, i) in enumerate(seq):
                 kind, src, dst, _ = OPS[i]
@@ -147,9 +148,10 @@ def jobs(tier):
     if q:
         combos = [(f, 1, 1, 1) for f in ("oid", "path")] + [(f, 2, 1, 0) for f in ("oid",)]
     else:
-        combos = [(f, 1, 1, 2) for f in ("oid", "path", "mixed", "oid-ci")] + [(f, 2, 1, 1) for f in ("oid", "path")] + [(f, 2, 2, 0) for f in ("oid",)]
+        combos = [("oid", 1, 1, 2), ("path", 1, 1, 1), ("mixed", 1, 1, 1), ("oid-ci", 1, 1, 1), ("oid", 2, 1, "round"), ("path", 2, 1, "round"), ("oid", 2, 1, 0), ("oid", 2, 2, 0)]
     # focused families; quick: the other side does one fixed unrelated thing (create /n); thorough: anything disjoint
     pr = {"prefixR": [6]} if q else {}
+    pr4 = {"prefixR": [6]}
     for f in ("oid", "path"):
         if f == "oid" or not q:
             # one side renames a folder and keeps working under both names (3 operations)
@@ -158,12 +160,14 @@ def jobs(tier):
         out.append({"harness": "merge", "params": dict(pr, flavour=f, nl=3, nr=1, slots=0, prefixL=[7]), "label": "%s/3+1-ops/0-slots/first=mkdir-m" % f})
         # two synchronised folders: one is moved into the other, which then takes the vacated name
         sl = 1 if (f == "oid" or not q) else 0
-        out.append({"harness": "merge", "params": dict(pr, flavour=f, base=4, nl=2, nr=1, slots=sl, prefixL=[16]), "label": "%s/base4/2+1-ops/%d-slot/first=rendir-d-m" % (f, sl)})
+        out.append({"harness": "merge", "params": dict(pr4, flavour=f, base=4, nl=2, nr=1, slots=sl, prefixL=[16]), "label": "%s/base4/2+1-ops/%d-slot/first=rendir-d-m" % (f, sl)})
     for f, nl, nr, sl in combos:
         p = {"flavour": f, "nl": nl, "nr": nr, "slots": sl}
+        if sl == "round":
+            p.update(slots=1, slotmode="round")
         if q:
             p["pool"] = 16         # the generic quick families leave the two folder-into-folder moves to the focused families above
-        out.append({"harness": "merge", "params": p, "label": "%s/%d+%d-ops/%d-slots" % (f, nl, nr, sl)})
+        out.append({"harness": "merge", "params": p, "label": "%s/%d+%d-ops/%s-slots" % (f, nl, nr, sl)})
     return out
 
 
@@ -173,7 +177,7 @@ def meta(tier):
                        "integers constrained so that the object sets touched by the two sides (closed under ancestor/descendant) are disjoint; z3 enumerates the satisfying assignments, "
                        "all interleavings of the two sequences and all schedule slots; the real engine runs on each and both quiet-state trees must equal a pure reference tree "
                        "(base + both deltas), with no '.conflicted' name.",
-        "bounds": {"operations": [o[:3] for o in OPS], "per side": "quick: 1+1 (2 flavours) and 2+1 (object ids) over the first 16 operations; focused 3+1 families (folder renamed and both names used; new folder, folder moved into it, name re-used) and 2+1 from a base with two synchronised folders, all 18 operations; thorough 1+1 x 2 slots on 4 flavours, 2+1 x 1 slot on 2, 2+2 without slots on 1", "slots": "1 (2)"},
+        "bounds": {"operations": [o[:3] for o in OPS], "per side": "quick: 1+1 (2 flavours) and 2+1 (object ids) over the first 16 operations; focused 3+1 families (folder renamed and both names used; new folder, folder moved into it, name re-used) and 2+1 from a base with two synchronised folders, all 18 operations; thorough: all 18 operations; 1+1 x 2 slots (object ids) and x 1 slot on 3 more flavours, 2+1 with a coarse slot (nothing / one fair round) on 2 flavours, 2+2 without slots on 1; the focused families with any disjoint operation on the other side", "slots": "1 (2)"},
         "symbolic": ["operation indices per side under the disjointness constraint", "interleaving positions", "schedule slots"],
         "outside": ["longer sequences", "other base trees", "quick: the generic families leave out the two folder-into-folder moves"],
         "stubs": ["engine lab determinisation"],
